@@ -151,6 +151,10 @@ func Closures(fn *ssa.Function) []*ssa.Function {
 	seen := map[*ssa.Function]bool{}
 	rec = func(f *ssa.Function) {
 		for _, a := range f.AnonFuncs {
+			if info := helperOf(a); info != nil && info.once {
+				rec(a) // runs inside its caller: not a closure of its own, but its literals are
+				continue
+			}
 			out = append(out, a)
 			rec(a)
 		}
@@ -201,6 +205,9 @@ func DirectClosures(fn *ssa.Function) []*ssa.Function {
 	var rec func(g *ssa.Function, depth int)
 	rec = func(g *ssa.Function, depth int) {
 		for _, a := range g.AnonFuncs {
+			if info := helperOf(a); info != nil && info.once {
+				continue // entered through its Once.Do call below
+			}
 			if !seen[a] {
 				seen[a] = true
 				out = append(out, a)
